@@ -32,11 +32,14 @@ def explain (sc : Scenario) (_names : List String) (k : Nat) (keep : Bool) (v : 
 
 /-- What the round's results oblige: environments that must be clean afterwards. -/
 def claims (c : RoundCtx) : List (Nat × Bool) :=
-  (c.ops.zipIdx).filterMap (fun p =>
+  (c.ops.zipIdx).flatMap (fun p =>
     match p.1, c.ro.results.getD p.2 .hang with
-    | .destroy k _ _ kp, .ok => some (k, kp)
-    | .new k, .err _ => some (k, false)
-    | _, _ => none)
+    | .destroy k _ _ kp, .ok => [(k, kp)]
+    | .new k, .err _ => [(k, false)]
+    -- a creation and a destroy issued while it was in flight: each answer obliges on its own
+    | .newd k _ _ kp, .nd cr dr _ =>
+      (match dr with | .ok => [(k, kp)] | _ => []) ++ (match cr with | .err _ => [(k, false)] | _ => [])
+    | _, _ => [])
 
 def judge (sc : Scenario) (ctxs : List RoundCtx) : Bool × String :=
   let rec go (cs : List RoundCtx) : Bool × String :=
@@ -45,6 +48,10 @@ def judge (sc : Scenario) (ctxs : List RoundCtx) : Bool × String :=
     | c :: rest =>
       let cl := claims c
       if specC06Round cl c.hungNow c.ro.hk c.after then go rest
+      -- requests that do not return because the environment manager's mutex is deadlocked (the core's own goroutine dump
+      -- showed a TeardownEnvironment waiting for a read lock it already holds behind a waiting writer): open finding
+      -- teardown_recursive_rlock (C06_finding_teardown_recursive_rlock, C06_lookup_is_code)
+      else if c.wedged && c.hungNow && hooksAfterRelease c.ro.hk then (false, "teardown_recursive_rlock")
       -- a request that does not return is a plain violation: the model of the code as it is never
       -- hangs (C06_teardown_returns_code, C06_teardown_never_hangs_code; finding teardown_registration_race is fixed)
       else if c.after.crashed || !hooksAfterRelease c.ro.hk || c.hungNow then (false, "-")
